@@ -173,13 +173,13 @@ func argsOfPoint(p int) *args.Args {
 }
 
 var policyCatalogue = map[string][]string{
-	"[]":      {`["==", ".x", 7]`, `["<", ".x", 0]`, `["and", [[">", ".x", 1], ["<", ".x", 1]]]`, `["like", ".s", "w*"]`, `["any", ".l", ["==", ".", 5]]`},
-	"[0]":     {`["==", ".x", 0]`, `["<", ".x", 1]`, `["not", [">", ".x", 0]]`, `["like", ".s", "*0"]`, `["any", ".l", ["==", ".", 0]]`, `["<=", ".x", 0]`},
-	"[1]":     {`["==", ".x", 1]`, `["and", [[">", ".x", 0], ["<", ".x", 2]]]`, `["like", ".s", "v1"]`, `["any", ".l", ["==", ".", 1]]`},
-	"[2]":     {`["==", ".x", 2]`, `[">", ".x", 1]`, `[">=", ".x", 2]`, `["like", ".s", "?2"]`, `["not", ["<", ".x", 2]]`},
-	"[0 1]":   {`["<", ".x", 2]`, `["<=", ".x", 1]`, `["not", ["==", ".x", 2]]`, `["or", [["==", ".x", 0], ["==", ".x", 1]]]`, `["any", ".l", ["<", ".", 2]]`},
-	"[0 2]":   {`["not", ["==", ".x", 1]]`, `["or", [["==", ".x", 0], ["==", ".x", 2]]]`, `["not", ["like", ".s", "*1"]]`},
-	"[1 2]":   {`[">", ".x", 0]`, `[">=", ".x", 1]`, `["all", ".l", [">", ".", 0]]`, `["not", ["==", ".x", 0]]`},
+	"[]":        {`["==", ".x", 7]`, `["<", ".x", 0]`, `["and", [[">", ".x", 1], ["<", ".x", 1]]]`, `["like", ".s", "w*"]`, `["any", ".l", ["==", ".", 5]]`},
+	"[0]":       {`["==", ".x", 0]`, `["<", ".x", 1]`, `["not", [">", ".x", 0]]`, `["like", ".s", "*0"]`, `["any", ".l", ["==", ".", 0]]`, `["<=", ".x", 0]`},
+	"[1]":       {`["==", ".x", 1]`, `["and", [[">", ".x", 0], ["<", ".x", 2]]]`, `["like", ".s", "v1"]`, `["any", ".l", ["==", ".", 1]]`},
+	"[2]":       {`["==", ".x", 2]`, `[">", ".x", 1]`, `[">=", ".x", 2]`, `["like", ".s", "?2"]`, `["not", ["<", ".x", 2]]`},
+	"[0 1]":     {`["<", ".x", 2]`, `["<=", ".x", 1]`, `["not", ["==", ".x", 2]]`, `["or", [["==", ".x", 0], ["==", ".x", 1]]]`, `["any", ".l", ["<", ".", 2]]`},
+	"[0 2]":     {`["not", ["==", ".x", 1]]`, `["or", [["==", ".x", 0], ["==", ".x", 2]]]`, `["not", ["like", ".s", "*1"]]`},
+	"[1 2]":     {`[">", ".x", 0]`, `[">=", ".x", 1]`, `["all", ".l", [">", ".", 0]]`, `["not", ["==", ".x", 0]]`},
 	"[0 1 2]":   {`[">=", ".x", 0]`, `["<=", ".x", 2]`, `["like", ".s", "v*"]`, `["all", ".l", [">=", ".", 0]]`, `["any", ".l", ["==", ".", 9]]`, `["not", ["==", ".x", 7]]`},
 	"[0 1 2 3]": {`["==", ".y?", 3]`, `["and", []]`, `["like", ".y?", "*"]`, `["and", [["==", ".y?", 3], [">", ".z?", 0]]]`},
 }
